@@ -11,4 +11,4 @@ Theorem gen_scaleNodeGroup_decide_agree : forall o st cpuP memP us untainted,
   | GCall _ [GL l; GF c; GF m; GI cr; GI mr] => calc_delta (zlen l) c m cr mr (o_up o) (fst (g_cache st)) (snd (g_cache st))
   | _ => DeltaErr 0
   end.
-Proof. intros. unfold gen_scaleNodeGroup_decide, decide. agree. Qed.
+Proof. intros. unfold gen_scaleNodeGroup_decide, decide. rewrite ?fgt_flt. agree. Qed.
